@@ -146,6 +146,87 @@ void regexDump(const char *path, int maxTok, int maxLen, vx::Summary &sum)
     qInstallMessageHandler(nullptr);
 }
 
+
+// ------------------------------------------------------------ expressions given as QRegularExpression objects, with pattern options
+// "passes iff the expression matches the message text": the expression is the object the user handed over, options included.
+// Every pattern <= maxTok tokens over an alphabet with blanks, '#', a letter in both cases, '.', '$' and a newline x every option
+// set below x every text; the oracle is the user's own expression object applied to the text.
+void regexOptions(int maxTok, vx::Summary &sum)
+{
+    const char *TOK[] = { "a", "B", " ", "#", ".", "$", "^", "\n", "b*", "(a)", "\\1", "\\w" };
+    const int NT = 12;
+    typedef QRegularExpression::PatternOption O;
+    const QRegularExpression::PatternOptions OPTS[] = {
+        QRegularExpression::NoPatternOption, O::CaseInsensitiveOption, O::DotMatchesEverythingOption, O::MultilineOption, O::ExtendedPatternSyntaxOption,
+        O::InvertedGreedinessOption, O::DontCaptureOption, O::UseUnicodePropertiesOption,
+        O::CaseInsensitiveOption | O::ExtendedPatternSyntaxOption, O::MultilineOption | O::DotMatchesEverythingOption, O::ExtendedPatternSyntaxOption | O::MultilineOption };
+    const char *ON[] = { "none", "i", "s", "m", "x", "U", "nocapture", "ucp", "ix", "ms", "xm" };
+    const int NO = 11;
+    std::vector<QString> texts;
+    { const char *SY[] = { "a", "A", "b", " ", "#", "\n" }; std::vector<QString> cur { QStringLiteral("") }; texts = cur;
+      for (int l = 1; l <= 3; l++) { std::vector<QString> nx; for (auto &x : cur) for (auto c : SY) nx.push_back(x + c); texts.insert(texts.end(), nx.begin(), nx.end()); cur = nx; } }
+    texts.push_back(QString(QChar(0xe9))); texts.push_back(QStringLiteral("a b")); texts.push_back(QStringLiteral("ab # x"));
+    qInstallMessageHandler([](QtMsgType, const QMessageLogContext &, const QString &) {});
+    std::vector<int> e;
+    static QMessageLogContext ctx("f", 1, "fn", "c");
+    std::function<void(int)> rec = [&](int left) {
+        if (!e.empty()) {
+            QString re; for (int t : e) re += TOK[t];
+            for (int oi = 0; oi < NO; oi++) {
+                QRegularExpression user(re, OPTS[oi]);
+                RegExpFilter flt(user);
+                std::string line = re.toStdString() + "/" + ON[oi] + ":";
+                for (auto &t : texts) {
+                    LogMessage m(QtDebugMsg, ctx, t);
+                    bool verdict = flt.filter(m), expect = user.match(t).hasMatch();
+                    line += verdict ? '1' : '0';
+                    sum.counters["regex_option_cases"]++;
+                    if (verdict != expect)
+                        sum.violate(std::string("regex-options:") + ON[oi], "RegExpFilter(QRegularExpression(" + vx::jstr(re) + ", options " + ON[oi] + ")) " + (verdict ? "passes" : "drops") + " the text " + vx::jstr(t) + " although the expression " + (expect ? "matches" : "does not match") + " it",
+                                    "{\"kind\":\"c16-regex-options\",\"regex\":" + vx::jstr(re) + ",\"options\":" + vx::jstr(ON[oi]) + ",\"text\":" + vx::jstr(t) + "}");
+                }
+                sum.digestAdd(line);
+            }
+        }
+        if (!left) return;
+        for (int t = 0; t < NT; t++) { e.push_back(t); rec(left - 1); e.pop_back(); }
+    };
+    rec(maxTok);
+    qInstallMessageHandler(nullptr);
+}
+
+// ------------------------------------------------------------ long runs: counters and run lengths around the widths of small integers
+// A run of n identical messages (n around 2^8 and 2^16, and one beyond 2^17), then a different text, then the run's text again: the
+// duplicate filter passes exactly the first message of every run, the sequence counter numbers every message it sees. One instance
+// of each for the whole family, so that the counter also crosses 2^16 and 2^17 several times.
+void longRuns(vx::Summary &sum)
+{
+    DuplicateFilter dup; SeqNumberAttr seq;
+    static QMessageLogContext ctx("f", 1, "fn", "c");
+    QString last = QStringLiteral(""); long long n = 0;
+    auto feed = [&](const QString &t, const char *what, long long pos) {
+        LogMessage m(QtDebugMsg, ctx, t);
+        long long got = seq.attributes(m).value(QStringLiteral("seq_number")).toLongLong();
+        bool pass = dup.filter(m), expect = !(t == last);
+        if (expect) last = t;
+        sum.counters["long_run_messages"]++;
+        if (got != n) sum.violate("long-run:seq", std::string("message number ") + std::to_string(n) + " of the long-run family gets seq_number " + std::to_string(got), "{\"kind\":\"c16-long-run\",\"at\":" + std::to_string(n) + "}");
+        if (pass != expect) sum.violate("long-run:dup", std::string("run ") + what + ", position " + std::to_string(pos) + " of the run: the duplicate filter " + (pass ? "passes a message equal to its predecessor" : "drops a message that differs from its predecessor"), "{\"kind\":\"c16-long-run\",\"run\":" + vx::jstr(what) + ",\"position\":" + std::to_string(pos) + "}");
+        n++;
+    };
+    const long long RUNS[] = { 254, 255, 256, 257, 65534, 65535, 65536, 65537, 65538, 131073 };
+    for (long long r : RUNS) {
+        std::string w = std::to_string(r) + " x 'same'";
+        for (long long i = 0; i < r; i++) feed(QStringLiteral("same"), w.c_str(), i);
+        feed(QStringLiteral("other"), w.c_str(), r);
+        feed(QStringLiteral("other"), w.c_str(), r + 1);
+    }
+    // a run of EMPTY texts right from the start (the filter's initial "previous text" is the empty one)
+    { DuplicateFilter d2; for (long long i = 0; i < 65538; i++) { LogMessage m(QtDebugMsg, ctx, i % 2 ? QString() : QStringLiteral("")); sum.counters["long_run_messages"]++;
+        if (d2.filter(m)) { sum.violate("long-run:dup", "initial run of empty texts, position " + std::to_string(i) + ": passed", "{\"kind\":\"c16-long-run\",\"run\":\"empty\",\"position\":" + std::to_string(i) + "}"); break; } } }
+    sum.digestAdd("longruns:" + std::to_string(n));
+}
+
 } // namespace
 
 int main(int argc, char **argv)
@@ -158,6 +239,9 @@ int main(int argc, char **argv)
     vx::Summary sum;
     sum.bound = "message sequences <= " + std::to_string(depth) + " over 9 texts x 5 types x 2 pipelines (90 messages)";
     if (rx) regexDump(rx, vx::argInt(argc, argv, "--regex-tokens", 3), vx::argInt(argc, argv, "--regex-len", 3), sum);
+
+    if (int rot = vx::argInt(argc, argv, "--regex-options-tokens", 0)) regexOptions(rot, sum);
+    if (vx::argInt(argc, argv, "--long-runs", 0)) longRuns(sum);
 
     std::set<std::string> seen;
     std::vector<std::vector<Msg>> frontier { {} };
